@@ -122,6 +122,34 @@ def run(ctx):
                 ctx.count("element")
                 if got.real != float(e[0]) or got.imag != float(e[1]):
                     ctx.disagree("rdm:element", f"rdm('{string}') = {got}, exact {e}", {**desc, "pattern": string})
+            # numeric strings with repeated indices and arbitrary operator order (number- and Sz-conserving overall):
+            # strings that normal-order to zero ('0^ 0^ 0 0') or to a constant plus terms ('0 0^') are matrix elements
+            # like any other
+            for _ in range(3):
+                r = rng.choice([1, 2, 2, 3]) if norb > 1 else rng.choice([1, 2])
+                cre = [rng.randrange(2 * norb) for _ in range(r)]
+                na = sum(1 for m in cre if m % 2 == 0)
+                ann = [rng.choice([m for m in range(2 * norb) if m % 2 == 0]) for _ in range(na)] + \
+                    [rng.choice([m for m in range(2 * norb) if m % 2 == 1]) for _ in range(r - na)]
+                if rng.random() < 0.5:
+                    ann = list(cre)
+                term = [(m, 1) for m in cre] + [(m, 0) for m in ann]
+                if rng.random() < 0.6:
+                    rng.shuffle(term)
+                string = " ".join(f"{m}^" if dg else str(m) for m, dg in term)
+                try:
+                    got = complex(ket.rdm(string) if same_bra else ket.rdm(string, brawfn=bra))
+                except Exception as exc:
+                    ctx.disagree(f"rdm-element-raises:{type(exc).__name__}", f"rdm('{string}') raised {exc}", {**desc, "pattern": string})
+                    continue
+                e = parse_c(d.ask(f"expect {norb} {fmt_vec(eb)} {fmt_vec(ek)} {fmt_op([(1.0, term)])}"))
+                ctx.case(("element-repeat", case, string))
+                ctx.count("element:repeated-indices")
+                if abs(got.real - float(e[0])) > 1e-9 or abs(got.imag - float(e[1])) > 1e-9:
+                    from openfermion import FermionOperator as _FO, normal_ordered as _no
+                    nord = _no(_FO(tuple(term), 1.0))
+                    sig = "rdm:element:string-normal-orders-to-a-constant" if all(len(t) == 0 for t in nord.terms) else "rdm:element:repeated"
+                    ctx.disagree(sig, f"rdm('{string}') = {got}, exact {e}", {**desc, "pattern": string})
         # ---- expectation value of a Hamiltonian = <bra|H|ket> = tensors . RDMs ---------------
         if wk != "spinbroken" and rank <= 2:
             h1 = C01.rand_tensor(rng, norb, 1, 0.7, True)
